@@ -5,6 +5,7 @@ import (
 	"fmt"
 	"net/netip"
 	"regexp"
+	"runtime"
 	"strconv"
 	"strings"
 
@@ -224,6 +225,29 @@ func c15(c *Ctx) {
 				c.Res.Violate("C15:"+role.name+":json-accepts-invalid", fmt.Sprintf("%s UnmarshalJSON(%s) accepted an invalid address", role.name, js), w, caseNo)
 			}
 		}
+	}
+
+	// ---- state left behind by the previous string: every rejected / odd string is followed by every kind of acceptable one (with a
+	// port, without, default port written out), on the same goroutine, for every role
+	{
+		first := []string{"192.168.1.100:99999", "192.168.1.100:12345 ", "192.168.1.100:", "192.168.1.100:0", "192.168.1.100:60000", "192.168.1.100:1x", "10.0.0.1:70000", "300.1.1.1:4000", "1.2.3.4:4000:5", "", ":", "1.2.3:80", "1.2.3.4.5:80", "[::1]:4000", "192.168.1.100:12345"}
+		second := []string{"10.0.0.1", "10.0.0.1:12345", "10.0.0.1:60000", "10.0.0.1:0", "10.0.0.1:60001", "172.16.254.254", "8.8.8.8:1", "0.0.0.0", "0.0.0.0:0", "255.255.255.255:65535"}
+		pinned := runtime.LockOSThread
+		pinned()
+		for _, role := range addrRoles {
+			for _, a := range first {
+				for _, b := range second {
+					role.parse(a)
+					check(role, b, "after-"+a)
+					role.set(a)
+					js, _ := json.Marshal(a)
+					role.unjson(js)
+					check(role, b, "after-set/json-"+a)
+				}
+			}
+		}
+		runtime.UnlockOSThread()
+		c.Res.Count("string-pairs(previous string rejected or odd)", int64(len(addrRoles)*len(first)*len(second)*2))
 	}
 
 	// ---- exhaustive short strings (partitioned by the first two symbols)
